@@ -61,6 +61,16 @@ CHECKS = {
         design_ref='DESIGN.md 5 / C02',
         technique='Coq proof (list induction; vm_compute over regenerated call-site/tag/Unicode tables) + python-ast translator + correspondence + hostile-catalog oracle',
         note=NOTE_COMMON + ' The provenance whitelist in tools/gen/gen_callsites.py is trusted (and dynamically validated). D5 fixed by commit 2c86b46.'),
+    'C14': dict(
+        category='proof',
+        text='Coq theorems over argument signatures: for each format kind the excess / missing / number / type-mismatch / unknown / missing-argument '
+             'diagnostics are emitted iff the two signatures differ in exactly that way (count, type per position or key, key sets), equal signatures are '
+             'never flagged, and in check_message dropping one integer argument is tolerated only when the form\'s window preimage restricted by the range flag '
+             'is empty, a single n, or 0 and one other n; fuzzy messages and catalogs without charset are exempt. The signatures themselves come from the parsers '
+             '(C11-C13). Tied to the code by correspondence of the real check_args / check_message (recorded invocations) and an independent flagged-iff-differs oracle.',
+        design_ref='DESIGN.md 5 / C14',
+        technique='Coq proof (list reasoning over signatures) + extracted-model correspondence + independent signature-comparison oracle',
+        note=NOTE_COMMON + ' D2 fixed by commit ebe368d.'),
 }
 
 NA_REASON = 'check not built yet (work in progress; see DESIGN.md section 8 for build order)'
